@@ -18,6 +18,9 @@ enum Actor {
     Lookup,
     /// `ZoneStore::insert` of packet `PACKETS[i]`
     Publish(usize),
+    /// `ZoneStore::insert` of a packet for a DIFFERENT key (its cache invalidation must not let a lookup of the
+    /// first key re-fill the cache with a superseded packet — seeded change C38-seed63)
+    PublishOther,
 }
 
 #[derive(Serialize, Deserialize, Clone, Debug, PartialEq, Eq, PartialOrd, Ord)]
@@ -137,6 +140,13 @@ async fn run(config: &Config, schedule: &[usize]) -> Result<RunResult, String> {
                             Ok(sp) => Outcome::Flag(app2.insert(sp).await.map_err(|e| e.to_string())),
                             Err(e) => Outcome::Flag(Err(e.to_string())),
                         },
+                        Actor::PublishOther => {
+                            let dns = dns_payload(&[Rec { name: format!("_iroh.{}", z32(1)), data: Data::Txt("other".into()) }]);
+                            match SignedPacket::from_bytes(&honest_packet(&secret(1), 50, &dns)) {
+                                Ok(sp) => Outcome::Flag(app2.insert(sp).await.map_err(|e| e.to_string())),
+                                Err(e) => Outcome::Flag(Err(e.to_string())),
+                            }
+                        }
                     }
                 }));
             }
@@ -355,6 +365,8 @@ fn main() {
         actor_sets.push(vec![Actor::Lookup, Actor::Lookup, Actor::Publish(1)]);
         actor_sets.push(vec![Actor::Lookup, Actor::Publish(1), Actor::Publish(2)]);
     }
+    // both tiers: a publish for another key interleaved with the lookup and the publish of the first key
+    actor_sets.push(vec![Actor::Lookup, Actor::Publish(1), Actor::PublishOther]);
     let mut roots: Vec<(Config, usize)> = Vec::new();
     for actors in &actor_sets {
         for warm in [false, true] {
